@@ -1,4 +1,5 @@
 import Httpcache.Driver.Monitors2
+import Httpcache.Driver.StoreMode
 open Httpcache Httpcache.Driver
 
 /-- per-exchange outcome tag for the distribution report -/
@@ -68,8 +69,23 @@ partial def loop (prop : String) (stdin : IO.FS.Stream) (h : Hist) (inHash : UIn
     let inHash := if line.startsWith "I\t" then mixHash inHash (hash line) else inHash
     loop prop stdin (parseLine h line) inHash prev
 
+partial def storeLoop (stdin : IO.FS.Stream) (st : StoreSt) : IO Unit := do
+  let line ← stdin.getLine
+  if line.isEmpty then return ()
+  let line := (line.dropEndWhile (· == '\n')).toString
+  if line.startsWith "E\t" then
+    IO.println s!"STAT\t{st.id}\t{st.backend}\t{hash st.id}\t1\t{st.backend}:{st.ops}"
+    match storeFinish st with
+    | some m => IO.println s!"MON\t{st.id}\t{m}"
+    | none => IO.println s!"OK\t{st.id}"
+    storeLoop stdin {}
+  else storeLoop stdin (storeLine st line)
+
 def main (args : List String) : IO UInt32 := do
   let prop := args.headD ""
   let stdin ← IO.getStdin
+  if prop == "C14" || prop == "C15" || prop == "C17" then
+    storeLoop stdin {}
+    return 0
   loop prop stdin {} 7
   return 0
